@@ -42,6 +42,9 @@ pub struct TraceRec {
     pub queries: Vec<String>,
     /// answers to the scripted reads of the contract's own storage
     pub reads: Vec<String>,
+    /// answers to the reads issued after the writes of the same call
+    #[serde(default)]
+    pub post_reads: Vec<String>,
 }
 
 #[derive(Clone, Debug, PartialEq, Eq, Serialize, Deserialize)]
